@@ -71,8 +71,12 @@ def flatten(t):
         for p in t[1]:
             if p[0] == "const":
                 out.append(("lit", p[1]))
+            elif p[0] == "fmt" and p[2] in ("", None) and (p[1][0] == "fstr" or (is_const(p[1]) and isinstance(p[1][1], str))):
+                out.extend(flatten(p[1]))       # text prepared beforehand and spliced in without a format: its own pieces
             elif p[0] == "fmt":
                 out.append(("val", p[1], p[2]))
+            elif p[0] in ("fstr",) or (p[0] == "bin" and p[1] == "+" and any(q[0] == "fstr" or (is_const(q) and isinstance(q[1], str)) for q in p[2:4])):
+                out.extend(flatten(p))          # a piece of text prepared beforehand and spliced in without a format: its own pieces
             else:
                 out.append(("val", p, ""))
         return out
@@ -249,6 +253,9 @@ def check_data_header(run, pkg):
         toks = [tokens(l) for l in lines]
         bl = [t for t in toks if len(t) == 4 and t[2:] in (["xlo", "xhi"], ["ylo", "yhi"], ["zlo", "zhi"])]
         ok = [t[2] for t in bl] == ["xlo", "ylo", "zlo"]
+        if not ok and any((not isinstance(x, str)) and x[0] == "val" and len(x) > 2 and x[2] in ("", None) and x[1][0] in ("phi", "fstr", "call", "bin", "sub")
+                          for t in toks for x in t):
+            ok = None          # a spliced piece of text whose content this rule does not know may carry the missing tokens
         run.ob("R-PROTO", fq, f"{ndim}D:bounds-lines", ok, "three bounds lines labelled xlo xhi / ylo yhi / zlo zhi in this order", str([t[2:] for t in bl]),
                witness=None if ok else "LAMMPS reads the box from these labels: an axis is missing or duplicated", loc=loc, sound=True)
         for r, t in enumerate(bl[:3]):
@@ -477,6 +484,13 @@ def check_selection(run, rr, fq, cfg, kws, pstore, tstore, style, ndim, stored_s
     run.ob("R-SEL", fq, f"{cfg}:mask", True, "one selection mask is applied to both positions and types", show(list(masks)[0])[:80], loc=loc)
     m = list(masks)[0]
     okm = None
+    full_m = m
+    if m[0] == "call" and m[1] in ("numpy.flatnonzero", "numpy.nonzero") and len(m[2]) == 1 and not m[3]:
+        m = m[2][0]            # the indices of the True entries select the same rows, in the same order, as the boolean mask
+    elif m[0] == "sub" and m[2] == C(0) and m[1][0] == "call" and m[1][1] in ("numpy.where", "numpy.nonzero") and len(m[1][2]) == 1:
+        m = m[1][2][0]
+    if m[0] == "call" and m[1] in ("numpy.array", "numpy.asarray") and m[2] and m[2][0][0] == "comp":
+        m = m[2][0]
     if m[0] == "comp" and len(m[3]) == 1 and not m[3][0][2]:
         cv, src, _ = m[3][0]
         elt = m[2]
@@ -488,6 +502,7 @@ def check_selection(run, rr, fq, cfg, kws, pstore, tstore, style, ndim, stored_s
         okm = True
     run.ob("R-SEL", fq, f"{cfg}:membership", okm, "an atom is selected exactly when its type is a key of the type map; the mask runs over the id-ordered type array", show(m)[:100],
            witness=None if okm else "moltypes={3:1,5:2}: atoms of other types selected / centres dropped", loc=loc, sound=True)
+    m = full_m
     # relabel
     want_T = ("attr", ("call", ".map", (("call", "pandas.Series", (("sub", PT, m),), ()), mt), ()), "values")
     alt_T = ("call", ".to_numpy", (("call", ".map", (("call", "pandas.Series", (("sub", PT, m),), ()), mt), ()),), ())
@@ -531,6 +546,13 @@ def check_selection(run, rr, fq, cfg, kws, pstore, tstore, style, ndim, stored_s
         return None
     if stored is None:
         run.ob("R-ALG", fq, f"{cfg}:positions", None, "per-atom stored value recognised", show(stored_scale)[:60], loc=loc)
+        return
+    # an array that is also written by element / masked stores after it was built: its term shows the allocation or the copy
+    # only, not what the stores put there - the point-wise form cannot be read off the term
+    bases = {drop_mask(strip_alloc(e.data["target"][1])) for e in stores(rr.it) if e.data["target"][0] == "sub" and not e.loops}
+    touched = [b for b in bases if any(strip_alloc(x) == b for x in walk(Pp)) and b[0] == "call" and b[1] in (".copy", "numpy.copy", "numpy.array", "numpy.where", "numpy.empty_like", "numpy.zeros_like")]
+    if touched:
+        run.ob("R-ALG", fq, f"{cfg}:positions", None, "point-wise form of the returned positions", "the returned array is filled by masked / element stores after it was built: not decided by this rule", loc=loc)
         return
     tr = S.Translator(at)
     try:
